@@ -1364,13 +1364,13 @@ def run(run, tier, replay=None):
             edocs += [(f"ops{i}", GO.random_doc(random.Random(rng.randrange(1 << 30)))) for i in range(12)]
         ectx = [(), ("generate_all_tags",), ("field_prefix",), ("docstrings_on_attributes",), ("class_overrides",), ("meta",)]
         for ei, (label, doc) in enumerate(edocs):
-            ctxs = ectx if (label == "enums" or tier == "thorough") else ectx[:2]
+            ctxs = ectx if (label == "enums" or tier == "thorough") else ectx[:1]
             for ci, c in enumerate(ctxs):
                 jobs.append((label, doc, rng.randrange(1 << 30), [c + ("literal_enums",)], "none" if (ei + ci) % 2 == 0 else "poetry", 4))
         jobs.append(("enums", enum_everywhere_doc(), rng.randrange(1 << 30), [(o,) for o in SINGLES if o != "literal_enums"], "poetry", 4))
         # descriptions with backslashes / quotes / escapes: the docstring option alone and in context, and every other option on that document
         dd = described_doc()
-        for ci, c in enumerate([(), ("literal_enums",), ("field_prefix",), ("class_overrides",), ("meta",), ("file_encoding",)]):
+        for ci, c in enumerate([(), ("literal_enums",), ("field_prefix",), ("class_overrides",), ("meta",), ("file_encoding",)][:6 if tier == "thorough" else 4]):
             jobs.append(("described", dd, rng.randrange(1 << 30), [c + ("docstrings_on_attributes",)], "none" if ci % 2 == 0 else "poetry", 4))
         jobs.append(("described", dd, rng.randrange(1 << 30), [(o,) for o in SINGLES if o != "docstrings_on_attributes"], "poetry", 4))
     run.rule = ("stage B: random (string, prefix, override table) / media type strings with override tables / operation lists with tag lists (duplicates, colliding and hostile "
